@@ -1566,7 +1566,8 @@ FROM (
             return f"(LOWER(TRIM(CAST({expr} AS VARCHAR))) = 'true')"
 
         if target_type_str == "Integer":
-            if source_lower == "boolean":
+            if source_lower in ("boolean", "integer"):
+                # an Integer stays in BIGINT: the DOUBLE detour below is exact only up to 2**53
                 return f"CAST({expr} AS {duckdb_type})"
             return f"CAST(TRUNC(CAST({expr} AS DOUBLE)) AS {duckdb_type})"
 
